@@ -246,3 +246,25 @@ def buffer_pieces(path, buf):
                 else:
                     return None
     return out
+
+
+def net_counter_change(events, counter):
+    """net change of a global counter over the stores of a path (None if some store is not "counter + constant").
+    A stored value that is built from the value the counter had on entry gives the offset from entry; one built from
+    a value re-read after a call adds to what has been accumulated so far"""
+    cur = 0
+    for e in events:
+        if e.kind != 'store' or e.addr != counter:
+            continue
+        got = lin(e.val)
+        lds = [t for t in (got.terms if got is not None else {}) if t[0] == 'ld' and t[1] == counter]
+        if got is None or len(got.terms) != 1 or len(lds) != 1 or got.terms[lds[0]] != 1:
+            return None
+        vers = []
+        sym.mentions(e.val, lambda x: vers.append(x[2]) or False if (x[0] == 'ld' and x[1] == counter and len(x) > 2) else False)
+        ver = vers[0] if vers else (0, 0)
+        if ver == (0, 0):
+            cur = got.const
+        else:
+            cur += got.const
+    return cur
